@@ -90,10 +90,13 @@ class Check:
         exe = self.bins.get(harness)
         if exe is None:
             raise RuntimeError("no harness binary for " + path)
-        cmd = [exe, "--mode", mode, "--replay", path]
-        if kf:
-            cmd += ["--kf", ",".join(kf)]
-        cmd += self.opt_args(self.unit_for(harness, mode))
+        if HARNESSES[harness].get("kind") == "fuzz":
+            cmd = [exe, "-timeout=60", path]
+        else:
+            cmd = [exe, "--mode", mode, "--replay", path]
+            if kf:
+                cmd += ["--kf", ",".join(kf)]
+            cmd += self.opt_args(self.unit_for(harness, mode))
         out = ""
         for _ in range(times):
             try:
@@ -166,6 +169,8 @@ class Check:
             out = os.path.join(self.rundir, "u%d.s%d" % (ui, s))
             os.makedirs(out, exist_ok=True)
             exe = self.bins[u["harness"]]
+            if u.get("kind") == "fuzz":
+                return self.run_fuzz(job, out, exe, cap)
             cmd = [exe, "--mode", u["mode"], "--out", out]
             if u.get("kind", "gen") == "enum":
                 cmd.append("--enum")
@@ -196,6 +201,70 @@ class Check:
         for r in results:
             self.handle_result(r)
         self.unit_results = results
+
+    def run_fuzz(self, job, out, exe, cap):
+        """One libFuzzer campaign: fresh corpus directory, fixed seed and run count, dictionary."""
+        ui, u, t, s = job
+        corpus = os.path.join(out, "corpus")
+        os.makedirs(corpus, exist_ok=True)
+        seed = derive_seed(self.seed, self.prop, "%s.%s" % (u["harness"], u["mode"]), s) % (2 ** 31 - 1) or 1
+        cmd = [exe, "-seed=%d" % seed, "-runs=%d" % t["cases"], "-max_len=%d" % t.get("max_len", 512), "-timeout=25",
+               "-rss_limit_mb=6000", "-artifact_prefix=" + out + "/", "-print_final_stats=1", "-verbosity=1"]
+        if u.get("dict"):
+            cmd.append("-dict=" + os.path.join(VERIF, u["dict"]))
+        cmd.append(corpus)
+        env = dict(self.env)
+        env["VERIF_FUZZ_STATS"] = os.path.join(out, "fuzz_stats.json")
+        env["ASAN_OPTIONS"] = env["ASAN_OPTIONS"].replace("exitcode=77", "exitcode=1")
+        t1 = time.time()
+        remaining = max(30, cap - (t1 - self.t0))
+        try:
+            p = subprocess.run(cmd, stdout=subprocess.PIPE, stderr=subprocess.STDOUT, text=True, errors="replace",
+                               env=env, timeout=remaining, cwd=self.rundir)
+            rc, output = p.returncode, p.stdout
+        except subprocess.TimeoutExpired as e:
+            rc, output = "timeout", (e.stdout or b"").decode(errors="replace") if isinstance(e.stdout, bytes) else (e.stdout or "")
+        # translate into the common stats shape
+        import re
+        execs = 0
+        m = re.search(r"stat::number_of_executed_units:\s*(\d+)", output)
+        if m:
+            execs = int(m.group(1))
+        cov = re.findall(r"#\d+\s+\w+\s+cov: (\d+) ft: (\d+) corp: (\d+)", output)
+        counters = {}
+        try:
+            counters = json.load(open(env["VERIF_FUZZ_STATS"]))
+        except Exception:
+            pass
+        if not execs:
+            execs = counters.get("execs", 0)
+        corp_files = sorted(os.listdir(corpus))
+        samples = []
+        for f in corp_files[:3]:
+            samples.append("hex:" + open(os.path.join(corpus, f), "rb").read()[:80].hex())
+        classes = {"fuzz." + k: v for k, v in counters.items() if isinstance(v, int)}
+        for i, v in enumerate(counters.get("menu", [])):
+            classes["fuzz.menu_%d" % i] = v
+        st = dict(mode=u["mode"], status="ok", evaluations=execs, nontrivial=counters.get("with_words", 0),
+                  distinct_nontrivial=len(corp_files), counted_distinct=len(corp_files), exhaustive=False, classes=classes,
+                  excluded_by_known_finding={}, samples=samples, fail_message="",
+                  extra=dict(coverage_edges=int(cov[-1][0]) if cov else 0, features=int(cov[-1][1]) if cov else 0,
+                             corpus_units=len(corp_files), seed=seed))
+        artifacts = [f for f in os.listdir(out) if f.startswith(("crash-", "leak-", "timeout-"))]
+        if rc == 0 or (rc != "timeout" and not artifacts and execs >= t["cases"]):
+            rc = 0
+        with open(os.path.join(out, "stats.json"), "w") as f:
+            json.dump(st, f)
+        if artifacts:
+            # the saved input is the reproducible unit
+            a = artifacts[0]
+            shutil.copyfile(os.path.join(out, a), os.path.join(out, "crash.case"))
+            st["fail_message"] = "libFuzzer artefact " + a
+            rc = 1
+        elif rc not in (0, "timeout"):
+            st["fail_message"] = "fuzz target exited with %s without an artefact" % rc
+            rc = 2
+        return dict(job=job, out=out, rc=rc, output=output[-20000:], wall=time.time() - t1, cmd=cmd)
 
     def handle_result(self, r):
         ui, u, t, s = r["job"]
